@@ -6,7 +6,7 @@
      - the two ThreadSpecificData records (_threadData[MESSAGE_THREAD_INTERNAL] = channel CI, the queue the internal
        thread reads; _threadData[MESSAGE_THREAD_OWNER] = channel CO, the reply queue the owner reads): the FIFO
        _messages under _queueLock, the number of signal bytes readable on its _messageSocket, the pending-notification
-       count of its _waitCondition;
+       count of its _waitCondition (a uint32 that saturates at MUSCLE_NO_LIMIT);
      - both signalling mechanisms (_useMessagingSockets): SignalAux writes one byte on the *other* side's socket (dropped
        while the pair is not allocated or that socket has been closed; lost when the peer end has been closed) or calls
        WaitCondition::Notify();
@@ -38,7 +38,7 @@
 
    Any number of threads; thread 0 is the owner (the only one allowed to receive replies and to start / shut down /
    join, as documented in Thread.h), every thread may send in either direction. *)
-From Coq Require Import List Arith Bool.
+From Coq Require Import List Arith Bool NArith.
 Import ListNotations.
 
 Definition tid := nat.
@@ -130,12 +130,12 @@ Inductive ev :=
 Record chan := mkCh {
   c_q    : list msg;              (* _messages *)
   c_sig  : nat;                   (* bytes readable on _messageSocket *)
-  c_wc   : nat;                   (* _waitCondition._pendingNotificationsCount *)
+  c_wc   : N;                     (* _waitCondition._pendingNotificationsCount (a uint32) *)
   c_sent : list msg;              (* ghost: every Message ever appended, in order *)
   c_rcvd : list msg               (* ghost: every Message ever removed, in order *)
 }.
 
-Definition ch0 : chan := mkCh [] 0 0 [] [].
+Definition ch0 : chan := mkCh [] 0 0%N [] [].
 
 Inductive istat := INone | ILive | IExited.    (* the native internal thread: none / running / past its last statement *)
 
@@ -166,7 +166,7 @@ Definition set_il (l : local) (g : gst) : gst :=
   mkG (g_sockets g) (g_evd g) (g_alloc g) (g_running g) (g_iopen g) (g_ci g) (g_co g) (g_ist g) l (g_gen g).
 
 Definition with_sig (x : chan) (n : nat) : chan := mkCh (c_q x) n (c_wc x) (c_sent x) (c_rcvd x).
-Definition with_wc (x : chan) (n : nat) : chan := mkCh (c_q x) (c_sig x) n (c_sent x) (c_rcvd x).
+Definition with_wc (x : chan) (n : N) : chan := mkCh (c_q x) (c_sig x) n (c_sent x) (c_rcvd x).
 
 Definition is_nil {A} (l : list A) : bool := match l with [] => true | _ => false end.
 
@@ -179,7 +179,7 @@ Definition fd_ok (g : gst) (c : chanid) : bool :=
 Definition readable (g : gst) (c : chanid) : bool :=
   if g_sockets g
   then Nat.ltb 0 (c_sig (ch g c)) || match c with CO => g_alloc g && negb (g_iopen g) | CI => false end
-  else Nat.ltb 0 (c_wc (ch g c)).
+  else N.ltb 0 (c_wc (ch g c)).
 
 (* GetThreadWakeupSocketAux: demand-allocate the connected pair *)
 Definition alloc_sockets (g : gst) : gst :=
@@ -195,7 +195,12 @@ Definition close_sockets (g : gst) : gst :=
 
 (* SignalInternalThread (c = CI: a byte on the owner's socket comes out on the internal one) /
    SignalOwner (c = CO: a byte on the internal socket comes out on the owner's one) *)
-Definition signal (c : chanid) (g : gst) : gst * list ev :=
+(* WaitCondition::IncreaseNotificationsCount(1): uint32 addition, saturating at MUSCLE_NO_LIMIT instead of wrapping *)
+Definition wc_inc (no_limit old : N) : N :=
+  let newCount := ((old + 1) mod 4294967296)%N in
+  if (old <? newCount)%N then newCount else no_limit.
+
+Definition signal (no_limit : N) (c : chanid) (g : gst) : gst * list ev :=
   if g_sockets g then
     match c with
     | CI => if g_alloc g
@@ -205,12 +210,13 @@ Definition signal (c : chanid) (g : gst) : gst * list ev :=
             then (set_ch CO (with_sig (g_co g) (S (c_sig (g_co g)))) g, [ESig CO])
             else (g, [])
     end
-  else (set_ch c (with_wc (ch g c) (S (c_wc (ch g c)))) g, [ENotify c]).
+  else (set_ch c (with_wc (ch g c) (wc_inc no_limit (c_wc (ch g c)))) g, [ENotify c]).
 
 Section Model.
 
 Variable early : bool.                         (* true: StartInternalThread as found (HasItems() read first, unlocked) *)
 Variable absorb_n : nat.                       (* sizeof(bytes) in WaitForNextMessageAux *)
+Variable no_limit : N.                         (* MUSCLE_NO_LIMIT *)
 Variable react : nat -> list msg * bool.       (* the subclass's MessageReceivedFromOwner: replies, and "exit now" *)
 
 Definition absorb (c : chanid) (g : gst) : gst :=
@@ -256,7 +262,7 @@ Definition step (c : choice) (g : gst) (l : local) : option (gst * local * list 
       goto (set_ch x (mkCh q' (c_sig cx) (c_wc cx) (c_sent cx ++ [m]) (c_rcvd cx)) g)
            (PSendSig x (Nat.eqb (length q') 1)) k [EDump]
   | PSendSig x first, CRun =>
-      if first then let (g', e) := signal x g in fin g' ROk k e else fin g ROk k []
+      if first then let (g', e) := signal no_limit x g in fin g' ROk k e else fin g ROk k []
   | PRecvAbsorb x w, CRun => goto (absorb x g) (PRecvCS x w) k []
   | PRecvCS x w, CRun =>
       let cx := ch g x in
@@ -271,13 +277,13 @@ Definition step (c : choice) (g : gst) (l : local) : option (gst * local * list 
       | WPoll => fin g RTimedOut k []
       | _ => if g_sockets g
              then (if fd_ok g x then goto g (PRecvPark x w) k [EPark x (c_sig (ch g x))] else fin g RBadObject k [])
-             else goto g (PRecvPark x w) k [EPark x (c_wc (ch g x))]
+             else goto g (PRecvPark x w) k [EPark x (N.to_nat (c_wc (ch g x)))]
       end
   | PRecvPark x w, CRun =>
       if readable g x
       then (if g_sockets g
             then goto g (PRecvAbsorb x WPoll) k [EWoken]
-            else goto (set_ch x (with_wc (ch g x) 0) g) (PRecvAbsorb x w) k [EWoken])
+            else goto (set_ch x (with_wc (ch g x) 0%N) g) (PRecvAbsorb x w) k [EWoken])
       else None
   | PRecvPark x WTimed, CTimeout => fin g RTimedOut k [ETimeout]
   | PStartRead, CRun =>
@@ -290,7 +296,7 @@ Definition step (c : choice) (g : gst) (l : local) : option (gst * local * list 
   | PStartSpawned, CRun => goto g PStartCheck k []
   | PStartCheck, CRun => goto g (PStartSig (negb (is_nil (c_q (g_ci g))))) k [EDump]
   | PStartSig needs, CRun =>
-      if needs then let (g', e) := signal CI g in fin g' ROk k e else fin g ROk k []
+      if needs then let (g', e) := signal no_limit CI g in fin g' ROk k e else fin g ROk k []
   | PShutdown w, CRun =>
       if g_running g then goto g (PSendCS CI None) (KShutdown w :: k) [] else fin g RVoid k []
   | PJoinTest, CRun =>
@@ -306,7 +312,7 @@ Definition step (c : choice) (g : gst) (l : local) : option (gst * local * list 
   | PIEntry, CRun => goto g PIStartupCS k [EBegin]
   | PIStartupCS, CRun =>
       if is_nil (c_q (g_co g)) then goto g PIAfterStartup k [EDump]
-      else let (g', e) := signal CO g in goto g' PIAfterStartup k (e ++ [EDump])
+      else let (g', e) := signal no_limit CO g in goto g' PIAfterStartup k (e ++ [EDump])
   | PIAfterStartup, CRun => goto g PILoop k []
   | PILoop, CRun => if g_evd g then goto g PIEvLoop k [] else goto g (PRecvAbsorb CI WNever) (KLoop :: k) []
   | PIEvLoop, CRun => if fd_ok g CI then goto g PIEvWait k [EPark CI (c_sig (g_ci g))] else goto g PIExit k []
